@@ -27,39 +27,22 @@ Theorem C10_member :
   forall ws d id, special ws id = false -> resolve_member ws d id = members_all ws d id.
 Proof. exact resolve_member_spec. Qed.
 
-(* ... as the service performs it from inside method m of class c.  Guard: the left operand's
-   class is not the enclosing class, or the method declares no variable of that name
-   (see C10_member_refuted_local) *)
+(* ... as the service performs it from inside method m of ANY class c, the enclosing class
+   included (fix 945552f: the class-level table above the cursor's nearest table) *)
 Theorem C10_member_in_context :
-  forall ws c m d id, special ws id = false ->
-    ci_eqb d c = false \/ find_last v_name id (vars_of ws c m) = None ->
-    definition_member ws c m d id = members_all ws d id.
+  forall ws c m d id, special ws id = false -> definition_member ws c m d id = members_all ws d id.
 Proof. exact definition_member_spec. Qed.
 
-(* the exact answer for the enclosing class: the variable of that name, then the members *)
-Theorem C10_member_own_class :
-  forall ws c m id, special ws id = false ->
-    definition_member ws c m c id =
-    match find_entity ws c with
-    | None => []
-    | Some _ =>
-        (match find_last v_name id (vars_of ws c m) with Some v => [(owner_name ws c, v_tag v)] | None => [] end)
-        ++ members_all ws c id
-    end.
-Proof. exact definition_member_own. Qed.
+(* a member's own declared name: field, constant, type (fix efb255c) ... *)
+Theorem C10_member_declared_name :
+  forall ws c id, special ws id = false -> definition_member_name ws c id = members_all ws c id.
+Proof. exact definition_member_name_spec. Qed.
 
-(* the declared name of a field *)
-Theorem C10_field_declared_name :
-  forall ws c id, special ws id = false -> definition_member_name ws c MField id = members_all ws c id.
-Proof. exact definition_field_name_spec. Qed.
-
-(* the declared name of a method (and whatever else sits directly under the method node) *)
+(* ... and method (fix 7983abd + 945552f: the name child only, class-level table).  A function's
+   return type is a plain type reference and falls under C10_plain. *)
 Theorem C10_method_declared_name :
-  forall ws c mn id, special ws id = false ->
-    definition_method_header ws c mn id =
-    (match find_last v_name id (vars_of ws c (Some mn)) with Some v => [(owner_name ws c, v_tag v)] | None => [] end)
-    ++ members_all ws c id.
-Proof. exact definition_method_header_spec. Qed.
+  forall ws c mn, special ws mn = false -> definition_method_name ws c mn = members_all ws c mn.
+Proof. exact definition_method_name_spec. Qed.
 
 (* every target is a declaration of that very name in the entity whose file is linked *)
 Theorem C10_target_members :
@@ -127,11 +110,31 @@ Example C10_member_nonvacuous :
   special ws3 s_fa = false /\
   resolve_member ws3 s_aLeaf s_fa = [(s_aMid, 1); (s_aBase, 2)] /\      (* `FA` in aMid and `Fa` in aBase, nearest first *)
   definition_member ws3 s_aLeaf leaf_run s_aMid s_Fa = [(s_aMid, 1); (s_aBase, 2)] /\
-  ci_eqb s_aMid s_aLeaf = false.
+  (* the enclosing class, from a method that has a parameter Fa: the members, not the parameter *)
+  definition_member ws3 s_aLeaf leaf_run s_aLeaf s_Fa = [(s_aMid, 1); (s_aBase, 2)] /\
+  definition_method_name ws3 s_aLeaf s_Run = [(s_aLeaf, 2); (s_aBase, 4)].
 Proof.
   destruct ws3_members as (H1 & _ & _). destruct ws3_guards as (G1 & _).
-  split; [exact G1|]. split; [exact H1|]. split; [apply ws3_other_member|reflexivity].
+  destruct ws3_own_member as (O1 & _ & _ & O4 & _).
+  split; [exact G1|]. split; [exact H1|]. split; [apply ws3_other_member|]. split; [exact O1|exact O4].
 Qed.
+
+(* regression cases of the four repaired steps *)
+Example C10_declared_names_nonvacuous :
+  special w_declname s_cA = false /\
+  definition_member_name w_declname s_aDecl s_cA = [(s_aDecl, 1)] /\      (* constant *)
+  definition_member_name w_declname s_aDecl s_tA = [(s_aDecl, 2)] /\      (* type *)
+  definition_member_name w_declname s_aDecl s_Fa = [(s_aDecl, 3)].        (* field *)
+Proof. destruct w_declname_facts as (H1 & H2 & H3 & H4). auto. Qed.
+
+Example C10_return_type_nonvacuous :
+  special w_ret s_tLib = false /\ resolve_plain w_ret s_aUser (Some s_Make) s_tLib = Some (s_aLib, 1).
+Proof. destruct w_ret_facts as (_ & H2 & H3). auto. Qed.
+
+Example C10_module_call_nonvacuous :
+  static_class w_modcall s_aUser (Some s_Run) [IId s_aModUtil; ICall s_Make] = Some (SClass s_aUser) /\
+  definition_dotted w_modcall s_aUser (Some s_Run) [IId s_aModUtil; ICall s_Make] s_Run = [(s_aUser, 1)].
+Proof. destruct w_modcall_facts as (_ & H2 & H3). auto. Qed.
 
 Example C10_fuel_nonvacuous : length (lineage ws3 s_aLeaf) = 3%nat.
 Proof. apply ws3_acyclic_depth. Qed.
@@ -156,31 +159,14 @@ Proof.
   split; [exact H1|]. split; [intros u Hu; rewrite G6 in Hu; destruct Hu|]. rewrite H2, H3. discriminate.
 Qed.
 
-(* a member of the ENCLOSING class after a dot is searched from the method's table:
-   `self.Fa` inside aLeaf.Run(Fa : int4) answers the parameter first *)
-Theorem C10_member_refuted_local :
-  exists ws c m id, special ws id = false /\ definition_member ws c m c id <> members_all ws c id.
+(* the step before fix 945552f (member_chain_old: the nearest table itself): `self.Fa` inside
+   aLeaf.Run(Fa : int4) answered the parameter first *)
+Theorem C10_old_member_refuted_local :
+  exists ws c m id, special ws id = false /\
+    map to_target (search_all (member_chain_old ws c m c) id) <> members_all ws c id.
 Proof.
-  exists ws3, s_aLeaf, leaf_run, s_Fa. destruct ws3_own_member as (H1 & H2 & H3).
-  split; [exact H3|]. rewrite H1, H2. discriminate.
-Qed.
-
-(* a function's return type is looked up like the method's declared name: all ancestors, no `uses` *)
-Theorem C10_return_type_refuted :
-  exists ws c mn id, special ws id = false /\
-    definition_method_header ws c mn id <> match visible ws c (Some mn) id with Some t => [t] | None => [] end.
-Proof.
-  exists w_ret, s_aUser, s_Make, s_tLib. destruct w_ret_facts as (H1 & H2 & _ & H4).
-  split; [exact H4|]. rewrite H1, H2. discriminate.
-Qed.
-
-(* the declared name of a constant / type yields no link *)
-Theorem C10_declared_name_refuted_const :
-  exists ws c id, definition_member_name ws c MConst id <> members_all ws c id /\
-                  definition_member_name ws c MType s_tA <> members_all ws c s_tA.
-Proof.
-  exists w_declname, s_aDecl, s_cA. destruct w_declname_facts as (H1 & H2 & H3 & H4 & _).
-  rewrite H1, H2, H3, H4. split; discriminate.
+  exists ws3, s_aLeaf, leaf_run, s_Fa. destruct ws3_own_member as (_ & H2 & H3 & _ & H5).
+  split; [exact H5|]. rewrite H2, H3. discriminate.
 Qed.
 
 (* the static class of a dotted prefix depends on WHERE in the class the prefix is written:
@@ -192,20 +178,11 @@ Proof.
   destruct w_fwd_facts as (H1 & H2 & _). rewrite H1, H2. split; [reflexivity|discriminate].
 Qed.
 
-(* `aModUtil.Make` has the type of Make, `aModUtil.Make()` has none *)
-Theorem C10_chain_refuted_module_call :
-  exists ws c m q f, static_class ws c m [IId q; IId f] <> None /\ static_class ws c m [IId q; ICall f] = None.
-Proof.
-  exists w_modcall, s_aUser, (Some s_Run), s_aModUtil, s_Make.
-  destruct w_modcall_facts as (H1 & H2). rewrite H1, H2. split; [discriminate|reflexivity].
-Qed.
-
 Print Assumptions C10_plain.
 Print Assumptions C10_plain_in_chain.
 Print Assumptions C10_member.
 Print Assumptions C10_member_in_context.
-Print Assumptions C10_member_own_class.
-Print Assumptions C10_field_declared_name.
+Print Assumptions C10_member_declared_name.
 Print Assumptions C10_method_declared_name.
 Print Assumptions C10_target_members.
 Print Assumptions C10_target_plain.
@@ -217,10 +194,10 @@ Print Assumptions C10_plain_nonvacuous.
 Print Assumptions C10_plain_uses_nonvacuous.
 Print Assumptions C10_member_nonvacuous.
 Print Assumptions C10_fuel_nonvacuous.
+Print Assumptions C10_declared_names_nonvacuous.
+Print Assumptions C10_return_type_nonvacuous.
+Print Assumptions C10_module_call_nonvacuous.
 Print Assumptions C10_plain_refuted_uses.
 Print Assumptions C10_plain_refuted_entity_name.
-Print Assumptions C10_member_refuted_local.
-Print Assumptions C10_return_type_refuted.
-Print Assumptions C10_declared_name_refuted_const.
+Print Assumptions C10_old_member_refuted_local.
 Print Assumptions C10_chain_refuted_forward.
-Print Assumptions C10_chain_refuted_module_call.
